@@ -192,7 +192,7 @@ theorem typedNodes_perm (s : SchemaD) {d d' : Doc} (h : d.defs.Perm d'.defs) (p 
 /-- **perm_definitions** for 17 of the 26 rules (not `SingleFieldSubscriptions`, whose clause reads the fragment table; `PossibleFragmentSpreads` reads the type condition of the LAST
     definition of a fragment name, so with duplicate fragment names its predicate depends on the order). The other
     rules, under the uniqueness hypotheses they need: Props/C06_inv4.lean, C06_inv5.lean, C06_inv9.lean
-    (`perm_definitions_all25_partial`: 25 of 26). -/
+    (`perm_definitions_all25_partial`: 25 of 26). [ALONE-RUN statement, rule by rule: each rule visitor in a chain of its own; for the verdict of the chain `validate_ast` runs see `Props/C06_chain.lean: chainM_six_transformations`.] -/
 theorem perm_definitions_all_partial (s : SchemaD) (fx : Fixes) {d d' : Doc} (h : d.defs.Perm d'.defs) (r : Rule)
     (hr : r ∈ ProvedPermDefs) (hns : r ≠ .singleFieldSubscriptions) : Silent s fx r d ↔ Silent s fx r d' := by
   rw [rule_iff_permdefs s fx d r hr, rule_iff_permdefs s fx d' r hr]
